@@ -330,7 +330,6 @@ pub fn run(ctx: &Ctx) -> i32 {
         f.frames[0].push(new_palette(0, (0..32u32).map(|i| pal_entry([i as u8 * 3 + 1, 200 - i as u8, i as u8 * 7, 255], None)).collect()));
         let Loaded::Ok(file) = load(&f.encode()) else { return 2 };
         let pal = file.palette().unwrap();
-        let mapper = PaletteMapper::new(pal, MappingOptions { failure: 31, transparent: Some(30) });
         let m = if thorough { 12u32 } else { 6 };
         let mut cases: Vec<(u32, u32, usize)> = Vec::new();
         for w in 1..=m {
@@ -396,6 +395,7 @@ pub fn run(ctx: &Ctx) -> i32 {
             buf.extend(std::iter::repeat(0xEE).take(*extra));
             let img = RgbaImage::from_raw(*w, *h, buf).expect("buffer is large enough");
             let mut p = Vec::new();
+            let mapper = PaletteMapper::new(pal, MappingOptions { failure: 31, transparent: Some(30) });
             let r = guarded(&mut p, || "to_indexed_image".into(), || to_indexed_image(img, &mapper));
             ctx.eval(n as u64);
             match r {
@@ -422,9 +422,11 @@ pub fn run(ctx: &Ctx) -> i32 {
             f.frames[0].push(new_palette(0, pal.iter().map(|c| pal_entry([c[0], c[1], c[2], 255], None)).collect()));
             let Loaded::Ok(file) = load(&f.encode()) else { return 2 };
             let p = file.palette().unwrap();
-            let mapper = PaletteMapper::new(p, MappingOptions { failure: 77, transparent: Some(66) });
             let bad = std::sync::atomic::AtomicU64::new(0);
             (0..256u32).into_par_iter().for_each(|r| {
+                // a mapper of its own per task: sharing one between the harness's threads would turn a racy
+                // mapper into an unreproducible report here; sharing is explored by `mapper-schedules`
+                let mapper = PaletteMapper::new(p, MappingOptions { failure: 77, transparent: Some(66) });
                 for g in 0..256u32 {
                     for b in 0..256u32 {
                         let expect = pal.iter().position(|c| *c == [r as u8, g as u8, b as u8]).map(|i| i as u8).unwrap_or(77);
